@@ -19,7 +19,11 @@ void harness(void) {
   for (int k = 0; k < 4; k++) { fg[k] = in_u64(); bg[k] = in_u64(); }
   bg[3] = BA;
   uint32_t c0 = in_u8(), c1 = in_u8();
+#ifdef TX /* position is a case-split cell (the 35 glyph writes + 63 background writes at a symbolic offset are out of reach) */
+  int64_t x = (TX), y = (TY);
+#else
   int64_t x = in_irange(-7, W + 1), y = in_irange(-9, H + 1);
+#endif
   int64_t px = in_irange(0, W - 1), py = in_irange(0, H - 1);
 #if MODE == 0
   ASSUME(c0 != '\n' && c0 != '\r');
